@@ -10,9 +10,13 @@ def conjuncts(g):
         return out
     return [g]
 
-def to_smt2(ob, axioms=(), goal=None):
+def to_smt2(ob, axioms=(), goal=None, groups=None):
     s = z3.Solver()
     for a in axioms: s.add(a)
+    if ob.axgroups:
+        for g, fs in ob.axgroups.items():
+            if groups is None or g in groups:
+                for a in fs: s.add(a)
     for a in ob.assumptions: s.add(a)
     s.add(z3.Not(ob.goal if goal is None else goal))
     return s.to_smt2()
@@ -22,57 +26,48 @@ def _run_cli(cmd, txt, timeout):
         f.write(txt); path = f.name
     try:
         t = time.time()
-        p = subprocess.run(cmd + [path], capture_output=True, text=True, timeout=timeout + 10)
+        p = subprocess.run(cmd + [path], capture_output=True, text=True, timeout=timeout + 5)
         out = (p.stdout or '').strip().splitlines()
         res = out[0].strip() if out else 'unknown'
         if res not in ('sat', 'unsat', 'unknown'): res = 'unknown'
         return res, time.time() - t
     except subprocess.TimeoutExpired:
-        return 'unknown', timeout
+        return 'unknown', float(timeout)
     finally:
         try: os.unlink(path)
         except OSError: pass
 
+Z3NEW = os.environ.get('PYVC_Z3NEW', 'z3-new')
+
 def solve_one(job):
-    """job = (key, smt2 text, timeout_s, expect_unprovable, backends) -> dict"""
-    key, txt, timeout, canary, backends = job
+    """job = (key, [smt2 text variants: lightest first, full last], timeout_s, canary, _) -> dict.
+    Every back end runs as a separate process with a hard timeout (in-process z3 does not honour timeouts inside E-matching loops)."""
+    key, txts, timeout, canary, _ = job
+    if isinstance(txts, str): txts = [txts]
     log = []
     result = 'unknown'; backend = None; model = None
     t_all = time.time()
     stages = []
-    for be in backends:
-        if be == 'z3py' and timeout > 12 and len(backends) > 1:
-            stages.append(('z3py', 10.0))          # quick first attempt; the full budget is spent only after the other back ends had their turn
-        else: stages.append((be, timeout))
-    if len(backends) > 1 and timeout > 12 and 'z3py' in backends: stages.append(('z3py', timeout))
-    for be, tmo in stages:
-        t = time.time()
-        timeout_ = tmo
-        if be == 'z3py':
-            try:
-                ctx = z3.Context()
-                s = z3.Solver(ctx=ctx)
-                s.set('timeout', int(timeout_ * 1000))
-                s.from_string(txt)
-                r = str(s.check())
-                if r == 'sat':
-                    try: model = s.model().sexpr()[:20000]
-                    except Exception: model = None
-                if r == 'unknown':
-                    log.append(('z3py', 'unknown:' + s.reason_unknown(), time.time() - t))
-                else:
-                    log.append(('z3py', r, time.time() - t))
-            except Exception as e:      # parser / internal error: treat as unknown for this back end
-                r = 'unknown'; log.append(('z3py', 'error:' + str(e)[:200], time.time() - t))
-        elif be == 'z3cli':
-            r, dt = _run_cli(['/usr/bin/z3', f'-T:{int(timeout_)}'], txt, timeout_); log.append(('z3-4.8', r, dt))
-        elif be == 'cvc5':
-            r, dt = _run_cli(['/usr/bin/cvc5', f'--tlimit={int(timeout_ * 1000)}', '--lang=smt2', '--full-saturate-quant'], "(set-logic ALL)\n" + txt, timeout_); log.append(('cvc5', r, dt))
-        else:
-            continue
-        if r in ('unsat', 'sat'):
-            result, backend = r, log[-1][0]
+    full = txts[-1]
+    if canary: stages = [('z3-5.1', timeout, full)]
+    else:
+        for v in txts[:-1]: stages.append(('z3-5.1', min(5.0, timeout), v))       # lighter axiom sets first (sound: fewer assumptions)
+        stages.append(('z3-5.1', 10.0 if timeout > 12 else timeout, full))
+        stages += [('z3-4.8', timeout, full), ('cvc5', timeout, full)]
+        if timeout > 12: stages.append(('z3-5.1', timeout, full))
+    for be, tmo, txt in stages:
+        if be == 'z3-5.1': r, dt = _run_cli([Z3NEW, f'-T:{max(1, int(tmo))}'], txt, tmo)
+        elif be == 'z3-4.8': r, dt = _run_cli(['/usr/bin/z3', f'-T:{max(1, int(tmo))}'], txt, tmo)
+        else: r, dt = _run_cli(['/usr/bin/cvc5', f'--tlimit={int(tmo * 1000)}', '--lang=smt2', '--full-saturate-quant'], "(set-logic ALL)\n" + txt, tmo)
+        log.append((be, r, dt))
+        if r == 'unsat' or (r == 'sat' and txt is full):
+            result, backend = r, be
             break
+    if result == 'sat' and not canary:
+        try:
+            p = subprocess.run([Z3NEW, '-T:10', '-in'], input=full.replace('(check-sat)', '(check-sat)\n(get-model)'), capture_output=True, text=True, timeout=20)
+            model = p.stdout[:20000]
+        except Exception: model = None
     return dict(key=key, result=result, backend=backend, model=model, log=log, wall=time.time() - t_all)
 
 def discharge(obls, axioms=(), timeout=60, canary_timeout=2, jobs=None, thorough=False, budgets=None):
@@ -81,10 +76,15 @@ def discharge(obls, axioms=(), timeout=60, canary_timeout=2, jobs=None, thorough
     work = []
     for k, ob in enumerate(obls):
         if ob.kind == 'canary':
-            work.append(((k, 0), to_smt2(ob, axioms), canary_timeout, True, ['z3py']))
+            work.append(((k, 0), [to_smt2(ob, axioms)], canary_timeout, True, None))
         else:
             for c, g in enumerate(conjuncts(ob.goal)):
-                work.append(((k, c), to_smt2(ob, axioms, g), (budgets[k] if budgets else timeout), False, ['z3py', 'z3cli', 'cvc5']))
+                if ob.axgroups:
+                    variants = [to_smt2(ob, axioms, g, groups=())]
+                    if 'ring' in ob.axgroups and len(ob.axgroups) > 1: variants.append(to_smt2(ob, axioms, g, groups=[x for x in ob.axgroups if x != 'ring']))
+                    variants.append(to_smt2(ob, axioms, g))
+                else: variants = [to_smt2(ob, axioms, g)]
+                work.append(((k, c), variants, (budgets[k] if budgets else timeout), False, None))
     if not work: return []
     if jobs == 1 or len(work) < 4:
         res = [solve_one(w) for w in work]
